@@ -175,6 +175,27 @@ Definition count_boundsb (f : fileR) : bool :=
   && (Offsets.fc_batches c <? pow10 6)%Z && (Offsets.fc_blocks c <? pow10 6)%Z && (Offsets.fc_count c <? pow10 8)%Z.
 
 (* ------------------------------------------------------------------ *)
+(* the count part of Create as a function on the tree                    *)
+
+(* x.F = z *)
+Definition set_int (x : recordR) (f : string) (z : Z) : recordR := mkRec (r_kind x) ((f, VI z) :: r_val x).
+
+(* Batch.build / IATBatch.build: `bc.EntryAddendaCount = entryCount` *)
+Definition tabulate_batch (b : batchR) : batchR :=
+  mkBat (bt_hdr b) (bt_entries b) (set_int (bt_ctl b) "EntryAddendaCount" (built_count b)).
+
+(* every batch's Create, then File.Create: the three count fields of the file control *)
+Definition tabulate (f : fileR) : fileR :=
+  let g := mkFil (fl_hdr f) (map tabulate_batch (fl_batches f)) (map tabulate_batch (fl_iat f)) (fl_ctl f) in
+  let c := created_control g in
+  mkFil (fl_hdr g) (fl_batches g) (fl_iat g)
+        (set_int (set_int (set_int (fl_ctl g) "BatchCount" (Offsets.fc_batches c)) "BlockCount" (Offsets.fc_blocks c))
+                 "EntryAddendaCount" (Offsets.fc_count c)).
+
+(* createFileADV returns ErrFileADVOnly for a file that mixes ADV and other batches *)
+Definition create_counts_of (f : fileR) : option fileR := if adv_only f then Some (tabulate f) else None.
+
+(* ------------------------------------------------------------------ *)
 (* the observation printed by the extracted model (correspondence)       *)
 
 Record counts_obs := mkObs {
@@ -183,7 +204,8 @@ Record counts_obs := mkObs {
   ob_n5 : nat; ob_n67 : nat;
   ob_segments : list (nat * Z);   (* per '5'..'8' segment: '6'/'7' lines inside, declared count of the '8' line *)
   ob_fc : Z * Z * Z;          (* declared batch count, block count, entry/addenda count of the file control line *)
-  ob_tab : bool; ob_fit : bool; ob_shape : bool; ob_bounds : bool; ob_noiat : bool }.
+  ob_tab : bool; ob_fit : bool; ob_shape : bool; ob_bounds : bool; ob_noiat : bool;
+  ob_retab : option (list Z * (Z * Z * Z)) }.  (* the count fields after Create is run (again): per batch, file control *)
 
 Definition observe (T : list layout) (f : fileR) : counts_obs :=
   let ls := write_file_padded T f in
@@ -191,4 +213,10 @@ Definition observe (T : list layout) (f : fileR) : counts_obs :=
   mkObs (length ls) (length (write_file T f)) (batch_header_lines ls) (entry_addenda_lines ls)
         (map (fun s => (entry_addenda_lines (fst s), bc_entry_count (snd s))) (batch_segments ls))
         (fc_batch_count fc, fc_block_count fc, fc_entry_count fc)
-        (tabulatedb f) (all_file (rec_fitsb T) f) (shape_ok T f) (count_boundsb f) (adv_no_iat f).
+        (tabulatedb f) (all_file (rec_fitsb T) f) (shape_ok T f) (count_boundsb f) (adv_no_iat f)
+        (match create_counts_of f with
+         | Some g => Some (map (fun b => geti (r_val (bt_ctl b)) "EntryAddendaCount") (all_batches g),
+                           (geti (r_val (fl_ctl g)) "BatchCount", geti (r_val (fl_ctl g)) "BlockCount",
+                            geti (r_val (fl_ctl g)) "EntryAddendaCount"))
+         | None => None
+         end).
